@@ -325,7 +325,11 @@ def ontology_scenarios(ctx, rng, rounds, cap):
             got1, got2 = [], []
             problem = None
             for q in seq:
-                v = next(it1, END)
+                try:
+                    v = next(it1, END)
+                except Exception as e:  # noqa
+                    problem = {'query': 'next() on the open `.terms` iterator', 'impl_after_history': f'raises {type(e).__name__}: {e}', 'model': 'the next term'}
+                    break
                 if v is not END:
                     got1.append(v.identifier.value)
                 try:
@@ -350,12 +354,21 @@ def ontology_scenarios(ctx, rng, rounds, cap):
                 if a != b:
                     problem = {'query': list(q), 'impl_after_history': a, 'model': b}
                     break
-                v = next(it2, END)
+                try:
+                    v = next(it2, END)
+                except Exception as e:  # noqa
+                    problem = {'query': f'next() on the open `.term_ids` iterator after {list(q)}', 'impl_after_history': f'raises {type(e).__name__}: {e}',
+                               'model': 'the next term id'}
+                    break
                 if v is not END:
                     got2.append(v.value)
             if problem is None:
-                got1 += [t.identifier.value for t in it1]
-                got2 += [t.value for t in it2]
+                try:
+                    got1 += [t.identifier.value for t in it1]
+                    got2 += [t.value for t in it2]
+                except Exception as e:  # noqa
+                    problem = {'query': 'draining the open iterators', 'impl_after_history': f'raises {type(e).__name__}: {e}', 'model': 'the remaining elements'}
+            if problem is None:
                 twin, _ = c06.build_impl(terms, full)
                 if sorted(got1) != sorted(t.identifier.value for t in twin.terms) or sorted(got2) != sorted(t.value for t in twin.term_ids):
                     problem = {'query': 'terms / term_ids iterators held open across the history', 'impl_after_history': [got1, got2],
@@ -509,6 +522,15 @@ def load_orders(ctx, rng, thorough):
         for k in range(3):
             # documents whose edge lists share boundary subjects with each other
             doc = c05.gen_doc(rng)
+            # every document names a different ontology in its graph id and contains classes of the OTHER namespaces (imports),
+            # attached below one of its HP classes: what a load keeps must not depend on which documents were loaded before
+            doc['id'] = c05.BASE + ['mondo.json', 'hp.json', 'hpx.json'][k]
+            hp_classes = [n['id'] for n in doc['nodes'] if n.get('type') == 'CLASS' and '/HP_' in n['id'] and '#' not in n['id']]
+            for pre in ('MONDO', 'HPX', 'HP'):
+                nid = c05.BASE + f'{pre}_09{k}0001'
+                doc['nodes'].append({'id': nid, 'type': 'CLASS', 'lbl': f'imported {pre} {k}'})
+                if hp_classes:
+                    doc['edges'].append({'sub': nid, 'pred': 'is_a', 'obj': rng.choice(hp_classes)})
             p = os.path.join(world, f'doc{k}.json')
             with open(p, 'w', encoding='utf-8') as fh:
                 json.dump({'graphs': [doc]}, fh, ensure_ascii=False)
